@@ -149,6 +149,7 @@ def op_strategy():
                 "op": st.just("remove"),
                 "inplace": st.booleans(),
                 "k": st.integers(0, 30),
+                "where": st.sampled_from(["any", "output", "inner", "multi"]),
                 "project": st.one_of(st.none(), st.integers(0, 7)),
             }
         ),
@@ -157,6 +158,7 @@ def op_strategy():
                 "op": st.just("remove"),
                 "inplace": st.booleans(),
                 "k": st.integers(0, 30),
+                "where": st.sampled_from(["any", "output", "inner", "multi"]),
                 "project": st.none(),
             }
         ),
@@ -295,7 +297,26 @@ def histories(draw, max_n=7, max_ops=10):
         gen.networks(min_n=2, max_n=max_n, max_dim=4, volume_limit=2**16)
     )
     path = draw(gen.linear_paths(len(net["inputs"])))
-    ops = draw(st.lists(op_strategy(), min_size=1, max_size=max_ops))
+    if draw(st.integers(0, 2)) == 0:
+        # short unobserved chains: two or three transformations with nothing
+        # looking at the tree in between (stale lazily filled caches survive
+        # only until the first observation), final state observed
+        k = draw(st.integers(2, 3))
+        chain = draw(st.lists(op_strategy(), min_size=k, max_size=k))
+        ops = []
+        for j, o in enumerate(chain):
+            o = dict(o)
+            o["obs"] = draw(st.sampled_from(["none", "none", "copy"]))
+            ops.append(o)
+        if draw(st.booleans()):
+            # ... optionally with the caches warmed up first
+            warm = draw(st.sampled_from(["contract", "query"]))
+            if warm == "contract":
+                ops.insert(0, {"op": "contract", "opts": {"order": None, "prefer_einsum": False, "impl": None}, "obs": "none"})
+            else:
+                ops.insert(0, {"op": "query", "which": "contract_stats", "obs": "none"})
+    else:
+        ops = draw(st.lists(op_strategy(), min_size=1, max_size=max_ops))
     # how the initial tree is made: from my path (linear or SSA form), by a
     # real finder (one all-tensor step resolved by ``optimize``), or from a
     # prefix of the path completed automatically; with any of the incremental
@@ -733,6 +754,17 @@ class Machine:
             avail = [ix for ix in self.labels if ix not in tree.sliced_inds]
             if not avail:
                 return "skipped"
+            # optionally restrict to a kind of label (when there is one)
+            where = op.get("where", "any")
+            if where == "output":
+                sub = [ix for ix in avail if ix in self.output]
+            elif where == "inner":
+                sub = [ix for ix in avail if ix not in self.output]
+            elif where == "multi":
+                sub = [ix for ix in avail if sum(ix in t for t in self.inputs) >= 2]
+            else:
+                sub = avail
+            avail = sub or avail
             ix = avail[op["k"] % len(avail)]
             project = op["project"]
             if project is not None:
@@ -897,8 +929,9 @@ def run_history(spec, oracle):
         (op["op"] in ("contract", "query") or op.get("obs") == "real")
         for op in spec["ops"][:-1]
     )
+    classes.append("observed_before_last_op" if has_obs_before else "unobserved_until_end")
     if oracle == "value":
-        nontrivial = n_struct >= 2 and has_obs_before
+        nontrivial = n_struct >= 2
     else:
         nontrivial = any(n in RECONF_OPS for n in names) and any(
             n in SLICE_OPS for n in names
